@@ -140,9 +140,9 @@ Theorem keys_survive : forall w ops, world_ok w = true -> w_golang w = false -> 
   (status c = ByUtls -> applied c = true) /\
   (applied c = true -> w_tls13 w = true -> share_some c = true /\ keys_some c = true /\ keys_match c = true).
 Proof.
-  intros w ops W G L c. destruct (legal_lf w ops L) as [lf E].
+  intros w ops W G L. cbv zeta. set (c := st_c (final w (init w) ops)). destruct (legal_lf w ops L) as [lf E].
   pose proof (final_node w ops lf W E) as N. unfold node_ok in N. cbv beta iota delta [fst snd ctl] in N.
-  split_conj. fold c in *.
+  fold c in N. split_conj.
   match goal with K : keys_p _ _ = true |- _ =>
     unfold keys_p in K; change (cw_golang (cworld_of w)) with (w_golang w) in K;
     change (cw_tls13 (cworld_of w)) with (w_tls13 w) in K; rewrite G in K end.
@@ -156,9 +156,9 @@ Theorem keys_golang : forall w ops, world_ok w = true -> w_golang w = true -> le
   let c := st_c (final w (init w) ops) in
   status c = ByGo -> share_some c = true /\ keys_some c = true /\ keys_match c = true.
 Proof.
-  intros w ops W G L c St. destruct (legal_lf w ops L) as [lf E].
+  intros w ops W G L. cbv zeta. set (c := st_c (final w (init w) ops)). intros St. destruct (legal_lf w ops L) as [lf E].
   pose proof (final_node w ops lf W E) as N. unfold node_ok in N. cbv beta iota delta [fst snd ctl] in N.
-  split_conj. fold c in *.
+  fold c in N. split_conj.
   match goal with K : keys_p _ _ = true |- _ =>
     unfold keys_p in K; change (cw_golang (cworld_of w)) with (w_golang w) in K; rewrite G, St in K;
     cbn [bstatus_eqb implb] in K end.
